@@ -1112,3 +1112,408 @@ Example coverage_nonvacuous :
   template_nth [label_arr_def] 3 [([105;100], VArr [PStr [97;32;98]; PInt 5]); ([107], VPrim (PInt 5))]
   = Some [([105;100], sval [46;97;43;98;37;50;67;53]); ([107], sval [53])].
 Proof. vm_compute. reflexivity. Qed.
+
+(* ================================================================================================ *)
+(* H. configuration histories on one schema object (Model_C06 section 12)                             *)
+(* ================================================================================================ *)
+(* --- urljoin with and without a netloc agree when no dot-dot segment can eat the leading empty segment *)
+Lemma resolve_dots_no_dotdot l : forall acc,
+  (forall x, In x l -> is_dotdot x = false) ->
+  resolve_dots l acc = rev acc ++ filter (fun s => negb (is_dot s)) l.
+Proof.
+  induction l as [|s l IH]; intros acc H; cbn [resolve_dots filter].
+  - rewrite app_nil_r; reflexivity.
+  - rewrite (H s (or_introl eq_refl)).
+    assert (H' : forall x, In x l -> is_dotdot x = false) by (intros x Hx; apply H; right; exact Hx).
+    destruct (is_dot s); cbn [negb].
+    + apply IH; exact H'.
+    + rewrite IH by exact H'. cbn [rev]. rewrite <- app_assoc. reflexivity.
+Qed.
+
+Lemma In_drop_last {A} (l : list A) x : In x (drop_last l) -> In x l.
+Proof.
+  induction l as [|a l IH]; cbn [drop_last]; [tauto|].
+  destruct l as [|b l]; [cbn; tauto|]. intros [H|H]; [left; exact H|right; apply IH; exact H].
+Qed.
+Lemma In_last_nonempty {A} (l : list A) d : l <> [] -> In (last l d) l.
+Proof.
+  induction l as [|a l IH]; [congruence|]. intros _. destruct l as [|b l]; [left; reflexivity|].
+  right. apply IH. discriminate.
+Qed.
+Lemma In_filter_middle l x : In x (filter_middle l) -> In x l.
+Proof.
+  destruct l as [|a [|b r]]; cbn [filter_middle]; try tauto.
+  intros [H|H]; [left; exact H|]. right. apply in_app_or in H. destruct H as [H|H].
+  - apply filter_In in H. apply In_drop_last. apply H.
+  - destruct H as [H|[]]. subst x. apply In_last_nonempty. discriminate.
+Qed.
+Lemma filter_middle_head a l : exists t, filter_middle (a :: l) = a :: t.
+Proof. destruct l as [|b r]; cbn [filter_middle]; eauto. Qed.
+
+Lemma no_dotdot_In s : no_dotdot s = true -> forall x, In x (split_on 47 s) -> is_dotdot x = false.
+Proof.
+  unfold no_dotdot. intros H x Hx. apply negb_true_iff in H.
+  destruct (is_dotdot x) eqn:E; [|reflexivity].
+  assert (existsb is_dotdot (split_on 47 s) = true) by (apply existsb_exists; exists x; split; assumption). congruence.
+Qed.
+
+Lemma join_nil_head (t : list str) : join [47] ([] :: t) = [] \/ exists r, join [47] ([] :: t) = 47 :: r.
+Proof. destruct t as [|b t]; [left; reflexivity|right]. cbn [join app]. eauto. Qed.
+
+Lemma urljoin_segments X g :
+  starts_with [47] X = true -> no_dotdot X = true -> no_dotdot g = true ->
+  (exists t, filter_middle (split_on 47 X ++ split_on 47 g) = [] :: t)
+  /\ (forall x, In x (filter_middle (split_on 47 X ++ split_on 47 g)) -> is_dotdot x = false).
+Proof.
+  intros HX HdX Hdg. split.
+  - destruct X as [|c X']; [discriminate|]. cbn [starts_with] in HX.
+    destruct (N.eqb 47 c) eqn:Ec; [|discriminate]. apply N.eqb_eq in Ec. subst c.
+    unfold split_on at 1. cbn [split_on_aux]. rewrite N.eqb_refl. cbn [rev app].
+    apply filter_middle_head.
+  - intros x Hx. apply In_filter_middle in Hx. apply in_app_or in Hx.
+    destruct Hx as [Hx|Hx]; [exact (no_dotdot_In _ HdX x Hx)|exact (no_dotdot_In _ Hdg x Hx)].
+Qed.
+
+Lemma lead_agree (p : str) : p = [] \/ (exists r, p = 47 :: r) ->
+  (match p with [] => [47] | 47 :: _ => p | _ => 47 :: p end) = (match p with [] => [47] | 47 :: _ => p | _ => p end).
+Proof. intros [->|[r ->]]; reflexivity. Qed.
+
+Lemma urljoin_agree X g :
+  starts_with [47] X = true -> no_dotdot X = true -> no_dotdot g = true ->
+  urljoin_path true X g = urljoin_path false X g.
+Proof.
+  intros HX HdX Hdg. unfold urljoin_path. destruct (is_nil g); [reflexivity|].
+  destruct (urljoin_segments X g HX HdX Hdg) as [[t Ht] Hseg].
+  remember (filter_middle (split_on 47 X ++ split_on 47 g)) as segs eqn:Hs. clear Hs. subst segs.
+  rewrite resolve_dots_no_dotdot by exact Hseg. cbn [rev app filter is_dot str_eqb negb].
+  apply lead_agree.
+  match goal with |- context [if ?b then _ else _] => destruct b end.
+  - apply (join_nil_head (filter (fun s => negb (is_dot s)) t ++ [[]])).
+  - apply join_nil_head.
+Qed.
+
+(* --- rstrip then one slash = add_slash, unless the path ends with two slashes *)
+Lemma lstrip_head q c r : lstrip_slash q = c :: r -> (c =? 47) = false.
+Proof.
+  induction q as [|a q IH]; cbn [lstrip_slash]; [discriminate|].
+  destruct (a =? 47) eqn:E; [exact IH|]. intros H; injection H as <- _. exact E.
+Qed.
+Lemma lstrip_suffix q : exists k, q = k ++ lstrip_slash q.
+Proof.
+  induction q as [|a q [k IH]]; cbn [lstrip_slash]; [exists []; reflexivity|].
+  destruct (a =? 47); [exists (a :: k); cbn [app]; rewrite <- IH; reflexivity|exists []; reflexivity].
+Qed.
+
+Lemma ends_with_slash_rstrip p : ends_with_slash (rstrip_slash p) = false.
+Proof.
+  unfold ends_with_slash, rstrip_slash. rewrite rev_involutive.
+  destruct (lstrip_slash (rev p)) as [|c r] eqn:E; [reflexivity|]. eapply lstrip_head; eauto.
+Qed.
+
+Lemma rstrip_add_slash_rev q : starts_with [47;47] q = false ->
+  rev (lstrip_slash q) ++ [47] = if (match q with c :: _ => c =? 47 | [] => false end) then rev q else rev q ++ [47].
+Proof.
+  intros H. destruct q as [|c q]; [reflexivity|].
+  cbn [lstrip_slash]. destruct (c =? 47) eqn:Ec; [|reflexivity].
+  apply N.eqb_eq in Ec. subst c. destruct q as [|d q]; [reflexivity|].
+  cbn [lstrip_slash]. destruct (d =? 47) eqn:Ed.
+  - apply N.eqb_eq in Ed. subst d. cbn in H. discriminate.
+  - cbn [rev]. reflexivity.
+Qed.
+Lemma rstrip_add_slash p : starts_with [47;47] (rev p) = false -> rstrip_slash p ++ [47] = add_slash p.
+Proof.
+  intros H. unfold rstrip_slash, add_slash, ends_with_slash.
+  rewrite (rstrip_add_slash_rev (rev p) H), rev_involutive. reflexivity.
+Qed.
+
+Lemma rstrip_prefix p : exists k, p = rstrip_slash p ++ k.
+Proof.
+  unfold rstrip_slash. destruct (lstrip_suffix (rev p)) as [k Hk].
+  exists (rev k). rewrite <- rev_app_distr, <- Hk, rev_involutive. reflexivity.
+Qed.
+Lemma rstrip_abs p : is_nil p || starts_with [47] p = true ->
+  is_nil (rstrip_slash p) || starts_with [47] (rstrip_slash p) = true.
+Proof.
+  intros H. destruct (rstrip_prefix p) as [k Hk]. destruct (rstrip_slash p) as [|c r] eqn:E; [reflexivity|].
+  rewrite Hk in H. cbn [app is_nil orb starts_with] in H. cbn [is_nil orb starts_with]. exact H.
+Qed.
+
+Lemma ends_with_slash_app a b : b <> [] -> ends_with_slash (a ++ b) = ends_with_slash b.
+Proof.
+  intros Hb. unfold ends_with_slash. rewrite rev_app_distr.
+  destruct (rev b) as [|c t] eqn:E; [|reflexivity].
+  exfalso. apply Hb. rewrite <- (rev_involutive b), E. reflexivity.
+Qed.
+(* ------------------------------------------------------------------------------------------------ *)
+(* ------------------------------------------------------------------------------------------------ *)
+Lemma hstep_cfg rd s e : hs_cfg (fst (hstep_with rd s e)) = cfg_update (hs_cfg s) e.
+Proof.
+  destruct e; cbn [hstep_with fst set_cfg hs_cfg cfg_update]; try reflexivity.
+  destruct (prepare_path tmpl params); try reflexivity.
+  destruct (transport_eqb _ _ && reads_base_path _); reflexivity.
+Qed.
+
+Lemma exec_cfg rd h : forall s, hs_cfg (exec_with rd s h) = final_cfg (hs_cfg s) h.
+Proof.
+  induction h as [|e h IH]; intros s; cbn [exec_with final_cfg fold_left]; [reflexivity|].
+  rewrite IH, hstep_cfg. reflexivity.
+Qed.
+
+Lemma final_cfg_last_write h : forall c,
+  final_cfg c h = {| cf_base := last_write pick_base h (cf_base c); cf_loc := last_write pick_loc h (cf_loc c);
+                     cf_spec := last_write pick_spec h (cf_spec c); cf_app := last_write pick_app h (cf_app c) |}.
+Proof.
+  unfold final_cfg, last_write.
+  induction h as [|e h IH]; intros c; cbn [fold_left].
+  - destruct c; reflexivity.
+  - rewrite IH. destruct e; reflexivity.
+Qed.
+
+Lemma exec_last_write rd h s :
+  hs_cfg (exec_with rd s h)
+  = {| cf_base := last_write pick_base h (cf_base (hs_cfg s)); cf_loc := last_write pick_loc h (cf_loc (hs_cfg s));
+       cf_spec := last_write pick_spec h (cf_spec (hs_cfg s)); cf_app := last_write pick_app h (cf_app (hs_cfg s)) |}.
+Proof. rewrite exec_cfg. exact (final_cfg_last_write h (hs_cfg s)). Qed.
+
+Lemma run_app rd h : forall s e,
+  run_with rd s (h ++ [e]) = run_with rd s h ++ [snd (hstep_with rd (exec_with rd s h) e)].
+Proof.
+  induction h as [|e0 h IH]; intros s e; cbn [app run_with exec_with].
+  - destruct (hstep_with rd s e); reflexivity.
+  - destruct (hstep_with rd s e0) as [s' o] eqn:E. cbn [fst]. rewrite IH. reflexivity.
+Qed.
+
+Lemma last_snoc {A} (l : list A) x d : last (l ++ [x]) d = x.
+Proof. apply last_last. Qed.
+
+(* the observation of an event depends on the state through the configuration only, when no operation comes from the cache *)
+Lemma hstep_obs_cfg s1 s2 e : hs_cfg s1 = hs_cfg s2 -> uses_cache e = false ->
+  snd (hstep s1 e) = snd (hstep s2 e).
+Proof.
+  intros Hc Hu. unfold hstep. destruct e; cbn [hstep_with snd read_live fst]; try reflexivity.
+  - destruct h; [|discriminate]. cbn [op_used cache_after]. rewrite Hc.
+    destruct (prepare_path tmpl params); try reflexivity.
+    destruct (transport_eqb _ _ && reads_base_path _); reflexivity.
+  - rewrite Hc; reflexivity.
+  - rewrite Hc; reflexivity.
+Qed.
+
+Lemma history_independence c1 c2 h1 h2 e :
+  final_cfg c1 h1 = final_cfg c2 h2 -> uses_cache e = false ->
+  last (run_history (init_state c1) (h1 ++ [e])) ONone = last (run_history (init_state c2) (h2 ++ [e])) ONone.
+Proof.
+  intros Hc Hu. unfold run_history. rewrite !run_app, !last_snoc.
+  apply hstep_obs_cfg; [|exact Hu]. rewrite !exec_cfg. exact Hc.
+Qed.
+
+(* WSGI: the path on the wire is the current base path joined with the filled template, for every history and every
+   operation object (fresh or cached) *)
+Lemma wsgi_wire_current c0 h hw tmpl params w r :
+  let s := exec_history (init_state c0) h in
+  cf_app (hs_cfg s) = TWsgi ->
+  snd (hstep s (EvSend hw tmpl params)) = OSent w r ->
+  exists f, prepare_path tmpl params = FOk f /\ w = expected_path (final_cfg c0 h) f.
+Proof.
+  intros s Happ. unfold hstep. cbn [hstep_with snd].
+  assert (Hcfg : hs_cfg s = final_cfg c0 h) by (unfold s, exec_history; rewrite exec_cfg; reflexivity).
+  destruct (prepare_path tmpl params) as [f| |]; try discriminate.
+  intros H. exists f. split; [reflexivity|].
+  assert (H' : send_obs (cfg_base_path (hs_cfg s)) (hs_cfg s) (op_used s hw tmpl) f = OSent w r).
+  { destruct (transport_eqb _ _ && reads_base_path _); cbn [read_live fst snd] in H; exact H. }
+  unfold send_obs in H'. rewrite Happ in H'.
+  destruct (negb _); [discriminate|]. injection H' as <- _. rewrite <- Hcfg. reflexivity.
+Qed.
+
+Lemma full_path_current c0 h tmpl :
+  snd (hstep (exec_history (init_state c0) h) (EvFullPath tmpl)) = OPath (expected_path (final_cfg c0 h) tmpl)
+  /\ snd (hstep (exec_history (init_state c0) h) EvBasePath) = OPath (cfg_base_path (final_cfg c0 h)).
+Proof.
+  unfold hstep, exec_history. cbn [hstep_with snd read_live fst]. rewrite exec_cfg. split; reflexivity.
+Qed.
+
+(* --- the base the requests/ASGI transports join with is the base path the WSGI transport joins with *)
+Definition slashed (u : burl) : str := if ends_with_slash (burl_text u) then bu_path u else bu_path u ++ [47].
+
+Lemma slashed_rstrip prefix p :
+  ends_with_slash prefix = false -> starts_with [47;47] (rev p) = false ->
+  slashed {| bu_prefix := prefix; bu_path := rstrip_slash p |} = add_slash p.
+Proof.
+  intros Hp Hd. unfold slashed, burl_text. cbn [bu_prefix bu_path].
+  assert (E : ends_with_slash (prefix ++ rstrip_slash p) = false).
+  { destruct (rstrip_slash p) as [|c r] eqn:Er.
+    - rewrite app_nil_r. exact Hp.
+    - rewrite ends_with_slash_app by discriminate. rewrite <- Er. apply ends_with_slash_rstrip. }
+  rewrite E. apply rstrip_add_slash. exact Hd.
+Qed.
+
+Lemma slashed_plain prefix p : p <> [] -> slashed {| bu_prefix := prefix; bu_path := p |} = add_slash p.
+Proof.
+  intros Hp. unfold slashed, burl_text, add_slash. cbn [bu_prefix bu_path].
+  rewrite ends_with_slash_app by exact Hp. reflexivity.
+Qed.
+
+Lemma unsplit_abs prefix p : is_nil p || starts_with [47] p = true -> unsplit prefix p = {| bu_prefix := prefix; bu_path := p |}.
+Proof.
+  intros H. unfold unsplit. f_equal.
+  destruct (is_nil p) eqn:E1; cbn [negb andb orb] in *.
+  - rewrite andb_false_r. reflexivity.
+  - rewrite H. cbn [negb]. rewrite andb_false_r. reflexivity.
+Qed.
+
+Lemma localhost_no_slash : ends_with_slash s_http_localhost = false.
+Proof. reflexivity. Qed.
+
+Lemma cfg_ok_parts c : cfg_ok c = true ->
+  (is_nil (cfg_path c) || starts_with [47] (cfg_path c) = true)
+  /\ starts_with [47;47] (rev (cfg_path c)) = false
+  /\ no_dotdot (cfg_base_path c) = true.
+Proof.
+  unfold cfg_ok. intros H. repeat rewrite andb_true_iff in H. destruct H as [[[_ H1] H2] H3].
+  apply negb_true_iff in H2. auto.
+Qed.
+
+Lemma add_slash_abs p : is_nil p || starts_with [47] p = true -> starts_with [47] (add_slash p) = true.
+Proof.
+  unfold add_slash. destruct p as [|c r]; [reflexivity|]. cbn [is_nil orb]. intros H.
+  destruct (ends_with_slash (c :: r)); [exact H|]. cbn [app starts_with] in *. exact H.
+Qed.
+
+Lemma slashed_cfg c : cfg_ok c = true ->
+  slashed (cfg_base_url c) = cfg_base_path c /\ slashed (normalize_base (cfg_base_url c)) = cfg_base_path c
+  /\ starts_with [47] (cfg_base_path c) = true.
+Proof.
+  intros Hok. destruct (cfg_ok_parts c Hok) as (Habs & Hdd & _).
+  unfold cfg_ok in Hok. repeat rewrite andb_true_iff in Hok. destruct Hok as [[[Hfirst _] _] _].
+  unfold cfg_base_url, cfg_base_path, cfg_path in *. destruct (cf_base c) as [u|].
+  - apply andb_true_iff in Hfirst. destruct Hfirst as [Hne Hpre].
+    apply negb_true_iff in Hne. apply negb_true_iff in Hpre. rewrite Hne.
+    split; [apply slashed_rstrip; assumption|]. split; [|apply add_slash_abs; exact Habs].
+    unfold normalize_base. cbn [bu_prefix bu_path]. destruct (is_nil (bu_prefix u)).
+    + rewrite unsplit_abs by (apply rstrip_abs; exact Habs). apply slashed_rstrip; [apply localhost_no_slash|exact Hdd].
+    + apply slashed_rstrip; assumption.
+  - apply andb_true_iff in Hfirst. destruct Hfirst as [Hloc Hsp].
+    set (sp := spec_base_path (cf_spec c)) in *.
+    assert (Hne : sp <> []) by (destruct sp; [discriminate|discriminate]).
+    assert (Habs' : is_nil sp || starts_with [47] sp = true) by (rewrite Hsp; apply orb_true_r).
+    rewrite unsplit_abs by exact Habs'.
+    split; [apply slashed_plain; exact Hne|]. split; [|apply add_slash_abs; exact Habs'].
+    unfold normalize_base. cbn [bu_prefix bu_path]. destruct (is_nil (cf_loc c)).
+    + rewrite unsplit_abs by exact Habs'. apply slashed_plain; exact Hne.
+    + apply slashed_plain; exact Hne.
+Qed.
+
+Lemma prepare_url_path_region c f : cfg_ok c = true -> no_dotdot (lstrip_slash f) = true ->
+  prepare_url_path (cfg_base_url c) f = expected_path c f
+  /\ prepare_url_path (normalize_base (cfg_base_url c)) f = expected_path c f.
+Proof.
+  intros Hok Hf. destruct (slashed_cfg c Hok) as (H1 & H2 & Habs).
+  destruct (cfg_ok_parts c Hok) as (_ & _ & Hdd).
+  unfold prepare_url_path, expected_path, get_full_path. fold (slashed (cfg_base_url c)). fold (slashed (normalize_base (cfg_base_url c))).
+  rewrite H1, H2. split; apply urljoin_agree; assumption.
+Qed.
+
+Lemma burl_eqb_eq a b : burl_eqb a b = true -> a = b.
+Proof.
+  unfold burl_eqb. rewrite andb_true_iff, !str_eqb_spec. destruct a, b; cbn. intros [-> ->]; reflexivity.
+Qed.
+Lemma transport_eqb_eq a b : transport_eqb a b = true -> a = b.
+Proof. destruct a, b; cbn; congruence. Qed.
+Lemma transport_eqb_refl a : transport_eqb a a = true.
+Proof. destruct a; reflexivity. Qed.
+
+Lemma fresh_is_current c : op_current c (make_op c) = true.
+Proof.
+  unfold op_current, make_op, burl_eqb. cbn [os_base os_app]. rewrite !str_eqb_refl, transport_eqb_refl. reflexivity.
+Qed.
+
+Lemma send_region c o f : cfg_ok c = true -> op_current c o = true -> no_dotdot (lstrip_slash f) = true ->
+  send_obs (cfg_base_path c) c o f =
+  if cannot_send c then ORaises else OSent (expected_path c f) (reported_prefix c ++ expected_path c f).
+Proof.
+  intros Hok Hcur Hf. unfold op_current in Hcur. apply andb_true_iff in Hcur. destruct Hcur as [Hb Ha].
+  apply burl_eqb_eq in Hb. destruct (prepare_url_path_region c f Hok Hf) as [P1 P2].
+  unfold send_obs, cannot_send, reported_prefix, url_of. rewrite Ha, Hb. cbn [negb].
+  destruct (cf_app c).
+  - destruct (is_nil (bu_prefix (cfg_base_url c))); [reflexivity|]. rewrite P1. reflexivity.
+  - rewrite P2. reflexivity.
+  - rewrite P2. reflexivity.
+Qed.
+
+Lemma history_send_region c0 h hw tmpl params f :
+  let s := exec_history (init_state c0) h in
+  let c := final_cfg c0 h in
+  cfg_ok c = true -> op_current c (op_used s hw tmpl) = true ->
+  prepare_path tmpl params = FOk f -> no_dotdot (lstrip_slash f) = true ->
+  snd (hstep s (EvSend hw tmpl params)) =
+  if cannot_send c then ORaises else OSent (expected_path c f) (reported_prefix c ++ expected_path c f).
+Proof.
+  intros s c Hok Hcur Hp Hf.
+  assert (Hcfg : hs_cfg s = c) by (unfold s, c, exec_history; rewrite exec_cfg; reflexivity).
+  unfold hstep. cbn [hstep_with snd]. rewrite Hp.
+  match goal with |- context [if ?b then _ else _] => destruct b end; cbn [snd read_live fst]; rewrite Hcfg; apply send_region; assumption.
+Qed.
+
+(* every send with a freshly made operation is in the region of the operation-is-current hypothesis *)
+Lemma history_fresh_send_region c0 h tmpl params f :
+  let c := final_cfg c0 h in
+  cfg_ok c = true -> prepare_path tmpl params = FOk f -> no_dotdot (lstrip_slash f) = true ->
+  snd (hstep (exec_history (init_state c0) h) (EvSend Fresh tmpl params)) =
+  if cannot_send c then ORaises else OSent (expected_path c f) (reported_prefix c ++ expected_path c f).
+Proof.
+  intros c Hok Hp Hf. apply history_send_region; try assumption.
+  cbn [op_used]. unfold exec_history. rewrite exec_cfg. apply fresh_is_current.
+Qed.
+
+(* --- witnesses *)
+Definition s_loop : str := [104;116;116;112;58;47;47;104].            (* http://h *)
+Definition s_items : str := [47;105;116;101;109;115].                 (* /items *)
+Definition s_api : str := [47;97;112;105].                            (* /api *)
+Definition s_v2 : str := [47;118;50].                                 (* /v2 *)
+Definition s_srv : str := [47;115;114;118].                           (* /srv *)
+Definition cfg0 (t : transport) : config :=
+  {| cf_base := None; cf_loc := []; cf_spec := SpV3 [ {| bu_prefix := s_loop; bu_path := s_srv |} ]; cf_app := t |}.
+Definition base_of (p : str) : option burl := Some {| bu_prefix := s_loop; bu_path := p |}.
+
+(* an operation taken from schema[path][method] before configure(base_url=..) keeps the old base URL *)
+Lemma cached_operation_refuted :
+  let h := [EvBase (base_of s_api); EvSend Cached s_items []; EvBase (base_of s_v2)] in
+  let s := exec_history (init_state (cfg0 TRequests)) h in
+  let c := final_cfg (cfg0 TRequests) h in
+  cfg_ok c = true /\ op_current c (op_used s Cached s_items) = false
+  /\ expected_path c s_items = s_v2 ++ s_items
+  /\ snd (hstep s (EvSend Cached s_items [])) = OSent (s_api ++ s_items) (s_loop ++ s_api ++ s_items)
+  /\ snd (hstep s (EvSend Fresh s_items [])) = OSent (s_v2 ++ s_items) (s_loop ++ s_v2 ++ s_items)
+  /\ (let sw := exec_history (init_state (cfg0 TWsgi)) h in
+      snd (hstep sw (EvSend Cached s_items [])) = OSent (s_v2 ++ s_items) (s_loop ++ s_api ++ s_items)).
+Proof. cbv zeta. repeat split; vm_compute; reflexivity. Qed.
+
+(* outside cfg_ok: the empty base URL text (truth test in base_path, None test in get_base_url), a trailing double slash *)
+Lemma base_shape_refuted :
+  (let c := {| cf_base := Some {| bu_prefix := []; bu_path := [] |}; cf_loc := []; cf_spec := cf_spec (cfg0 TWsgi); cf_app := TWsgi |} in
+   cfg_ok c = false
+   /\ snd (hstep (init_state c) (EvSend Fresh s_items [])) = OSent (s_srv ++ s_items) (s_http_localhost ++ s_items))
+  /\ (let c := {| cf_base := base_of (s_api ++ [47;47]); cf_loc := []; cf_spec := SpV3 []; cf_app := TWsgi |} in
+      cfg_ok c = false
+      /\ snd (hstep (init_state c) (EvSend Fresh [47] [])) = OSent (s_api ++ [47;47]) (s_loop ++ s_api ++ [47])).
+Proof. cbv zeta. repeat split; vm_compute; reflexivity. Qed.
+
+(* SENTINEL: were the base path computed once per schema object (read_memo), a WSGI send after configure(base_url=..) would
+   keep going to the first base path; the present rule (read_live) follows the configuration *)
+Lemma base_path_memo_sentinel_refuted :
+  let h := [EvBase (base_of s_api); EvSend Fresh s_items []; EvBase (base_of s_v2); EvSend Fresh s_items []; EvFullPath s_items] in
+  run_history_memo (init_state (cfg0 TWsgi)) h
+  = [ONone; OSent (s_api ++ s_items) (s_loop ++ s_api ++ s_items); ONone;
+     OSent (s_api ++ s_items) (s_loop ++ s_v2 ++ s_items); OPath (s_api ++ s_items)]
+  /\ run_history (init_state (cfg0 TWsgi)) h
+  = [ONone; OSent (s_api ++ s_items) (s_loop ++ s_api ++ s_items); ONone;
+     OSent (s_v2 ++ s_items) (s_loop ++ s_v2 ++ s_items); OPath (s_v2 ++ s_items)]
+  /\ expected_path (final_cfg (cfg0 TWsgi) h) s_items = s_v2 ++ s_items.
+Proof. cbv zeta. repeat split; vm_compute; reflexivity. Qed.
+
+Example history_nonvacuous :
+  let h := [EvApp TAsgi; EvBase (base_of (s_api ++ [47])); EvSend Cached s_items []; EvSpec (SpV2 None); EvFullPath s_items] in
+  let c := final_cfg (cfg0 TRequests) h in
+  cfg_ok c = true /\ op_current c (op_used (exec_history (init_state (cfg0 TRequests)) h) Cached s_items) = true
+  /\ cannot_send c = false /\ no_dotdot (lstrip_slash s_items) = true
+  /\ expected_path c s_items = s_api ++ s_items.
+Proof. cbv zeta. repeat split; vm_compute; reflexivity. Qed.
